@@ -200,7 +200,7 @@ func init() {
 		var tier string
 		mk := func(name, bounds string, n func(string) int64, text func(int64) string) *vf.Family {
 			return &vf.Family{
-				Name: name, Bounds: bounds, Timeout: 20 * time.Second,
+				Name: name, Bounds: bounds, Timeout: 5 * time.Second,
 				Setup:    func(t string) { tier = t; setup(t) },
 				N:        func(t string) int64 { tier = t; return n(t) },
 				Describe: func(i int64) string { return strconv.Quote(text(i)) },
@@ -210,7 +210,7 @@ func init() {
 		return &vf.Check{
 			ID: "C05", Level: "model_checking",
 			Rule: "every string of the bounded text spaces (token sequences, raw byte sequences, preamble line sequences) is fed to 6 reader entry points under recover and a per-case watchdog; non-trivial = at least one entry point returned an AST (which is then PRINTed)",
-			Assumptions: []string{"texts above the length bound or outside the alphabets are not covered", "a hang is a case exceeding the 20 s watchdog"},
+			Assumptions: []string{"texts above the length bound or outside the alphabets are not covered", "a hang is a case exceeding the 5 s watchdog (reading a text of a few tokens takes microseconds)"},
 			Families: []*vf.Family{
 				mk("tokens", fmt.Sprintf("all sequences of <=4 (quick) / <=5 (thorough) tokens over %d tokens, joined by one space", len(c05Tokens)),
 					func(t string) int64 { return seqSpace{len(c05Tokens), tokLen(t)}.size() },
